@@ -9,7 +9,7 @@ LEVEL = "proof"
 def sem_bad_text(p):
     """does the text contain a repetition range with min > max (a descending character range is tracked by the generator)"""
     for m in re.finditer(r"\{(\d+),(\d+)\}", p):
-        if int(m.group(1)) > int(m.group(2)):
+        if int(m.group(1), 10) > int(m.group(2), 10):      # the documented num is a decimal number
             return True
     return False
 
